@@ -14,6 +14,9 @@ type vTxnPlan struct {
 }
 
 type vObsWorld struct {
+	nsOf   map[string]string    // anchor string -> namespace
+	cur    string               // anchor string of the transaction being processed
+	wrongNamespace bool
 	plans  map[string]*vTxnPlan // by anchor string
 	stored [][]*operation.AnchoredOperation
 	order  []string
@@ -23,8 +26,11 @@ var vO *vObsWorld
 
 type vClientProvider struct{}
 
+var vNsFails map[string]bool
+var vTxnNames = []string{"t0", "t1", "t2", "t3"}
+
 func (vClientProvider) ForNamespace(ns string) (protocol.Client, error) {
-	if vO.plans[ns].nsFails {
+	if vNsFails[ns] {
 		return nil, VErr("namespace not found")
 	}
 	return vObsClient{ns}, nil
@@ -33,8 +39,11 @@ func (vClientProvider) ForNamespace(ns string) (protocol.Client, error) {
 type vObsClient struct{ ns string }
 
 func (c vObsClient) Current() (protocol.Version, error) { return nil, VErr("unused") }
-func (c vObsClient) Get(uint64) (protocol.Version, error) {
-	if vO.plans[c.ns].versionFails {
+
+// every transaction carries its own index as protocol version, which identifies it here
+func (c vObsClient) Get(version uint64) (protocol.Version, error) {
+	name := vTxnNames[int(version)]
+	if vO.plans[name].versionFails {
 		return nil, VErr("protocol version not found")
 	}
 	return vObsVersion{c.ns}, nil
@@ -46,21 +55,26 @@ func (v vObsVersion) Version() string             { return "1.0" }
 func (v vObsVersion) Protocol() protocol.Protocol { return protocol.Protocol{} }
 func (v vObsVersion) TransactionProcessor() protocol.TxnProcessor {
 	// the REAL transaction processor over harness providers
-	return txnprocessor.New(&txnprocessor.Providers{OpStore: vObsStore{v.ns}, OperationProtocolProvider: vObsProvider{}})
+	return txnprocessor.New(&txnprocessor.Providers{OpStore: vObsStore{v.ns}, OperationProtocolProvider: vObsProvider{v.ns}})
 }
 func (v vObsVersion) OperationParser() protocol.OperationParser         { return nil }
 func (v vObsVersion) OperationApplier() protocol.OperationApplier       { return nil }
 func (v vObsVersion) OperationHandler() protocol.OperationHandler       { return nil }
-func (v vObsVersion) OperationProvider() protocol.OperationProvider     { return vObsProvider{} }
+func (v vObsVersion) OperationProvider() protocol.OperationProvider     { return vObsProvider{v.ns} }
 func (v vObsVersion) DocumentComposer() protocol.DocumentComposer       { return nil }
 func (v vObsVersion) DocumentValidator() protocol.DocumentValidator     { return nil }
 func (v vObsVersion) DocumentTransformer() protocol.DocumentTransformer { return nil }
 
-type vObsProvider struct{}
+type vObsProvider struct{ ns string }
 
-func (vObsProvider) GetTxnOperations(t *txn.SidetreeTxn) ([]*operation.AnchoredOperation, error) {
+func (pr vObsProvider) GetTxnOperations(t *txn.SidetreeTxn) ([]*operation.AnchoredOperation, error) {
 	vO.order = append(vO.order, t.AnchorString)
-	p := vO.plans[t.Namespace]
+	vO.cur = t.AnchorString
+	// a transaction must be read through the provider of ITS namespace
+	if pr.ns != t.Namespace {
+		vO.wrongNamespace = true
+	}
+	p := vO.plans[t.AnchorString]
 	if p.readFails {
 		return nil, VErr("cas read / parse failed")
 	}
@@ -70,8 +84,11 @@ func (vObsProvider) GetTxnOperations(t *txn.SidetreeTxn) ([]*operation.AnchoredO
 type vObsStore struct{ ns string }
 
 func (s vObsStore) Put(ops []*operation.AnchoredOperation) error {
-	if vO.plans[s.ns].putFails {
+	if vO.plans[vO.cur].putFails {
 		return VErr("put failed")
+	}
+	if s.ns != vO.nsOf[vO.cur] {
+		vO.wrongNamespace = true
 	}
 	vO.stored = append(vO.stored, append([]*operation.AnchoredOperation(nil), ops...))
 	return nil
@@ -82,19 +99,26 @@ func (s vObsStore) Put(ops []*operation.AnchoredOperation) error {
 // with the REAL TxnProcessor in between: the store ends up with exactly the operations of the
 // transactions that went through, a failing one contributes nothing and stops nothing.
 func VHarness_C15_observer_isolation() {
-	k := VBound("K", 2)
-	vO = &vObsWorld{plans: map[string]*vTxnPlan{}}
+	k := VBound("K", 3)
+	vO = &vObsWorld{plans: map[string]*vTxnPlan{}, nsOf: map[string]string{}}
 	var txns []txn.SidetreeTxn
-	names := []string{"ns0", "ns1", "ns2", "ns3"}
+	nss := []string{"nsA", "nsB"}
+	// namespace-level faults (lookup of the namespace / of the protocol version) are per NAMESPACE; read and
+	// store faults are per transaction. Consecutive transactions may share a namespace.
+	nsFails := map[string]bool{"nsA": VNondetBool("nsA.lookupFails"), "nsB": VNondetBool("nsB.lookupFails")}
+	vNsFails = nsFails
+	names := vTxnNames
 	for i := 0; i < k; i++ {
-		p := &vTxnPlan{nsFails: VNondetBool("nsFails"), versionFails: VNondetBool("versionFails"), readFails: VNondetBool("readFails"), putFails: VNondetBool("putFails")}
-		m := VNondetRange("nops", 0, 2)
+		ns := nss[VNondetRange("namespace", 0, 1)]
+		p := &vTxnPlan{nsFails: nsFails[ns], versionFails: VNondetBool("versionFails"), readFails: VNondetBool("readFails"), putFails: VNondetBool("putFails")}
+		m := VNondetRange("nops", 0, 1)
 		for j := 0; j < m; j++ {
 			p.ops = append(p.ops, &operation.AnchoredOperation{UniqueSuffix: VNondetString("suffix"), Type: operation.TypeUpdate, OperationRequest: []byte{byte(10*i + j)}})
 		}
 		vO.plans[names[i]] = p
-		txns = append(txns, txn.SidetreeTxn{Namespace: names[i], AnchorString: names[i], TransactionTime: uint64(100 + i), TransactionNumber: uint64(i),
-			CanonicalReference: "ref-" + names[i]})
+		vO.nsOf[names[i]] = ns
+		txns = append(txns, txn.SidetreeTxn{Namespace: ns, AnchorString: names[i], TransactionTime: uint64(100 + i), TransactionNumber: uint64(i),
+			ProtocolVersion: uint64(i), CanonicalReference: "ref-" + names[i]})
 	}
 	o := New(&Providers{ProtocolClientProvider: vClientProvider{}})
 
@@ -115,7 +139,6 @@ func VHarness_C15_observer_isolation() {
 		}
 		got := vO.stored[idx]
 		idx++
-		// at most one operation per suffix, all stamped with this transaction
 		for a, x := range got {
 			VAssert("C15/observer-stamped-with-own-transaction", VAnd(x.TransactionTime == uint64(100+i), x.TransactionNumber == uint64(i), x.CanonicalReference == "ref-"+names[i]))
 			for _, y := range got[:a] {
@@ -125,4 +148,5 @@ func VHarness_C15_observer_isolation() {
 		VAssert("C15/observer-stores-no-more-than-read", len(got) <= len(p.ops))
 	}
 	VAssert("C15/failed-transaction-contributes-nothing", idx == len(vO.stored))
+	VAssert("C15/transactions-processed-under-their-own-namespace", !vO.wrongNamespace)
 }
